@@ -39,10 +39,7 @@ fn data_as_table(data: &mut Buffer<BigEndian>) -> GDResult<(HashMap<String, Vec<
 
     let rows = data.read::<u8>()? as usize;
 
-    if rows == 0 {
-        return Ok((HashMap::new(), 0));
-    }
-
+    // The column heads are sent (and have to be consumed) even when there are no rows.
     let mut column_heads = Vec::new();
 
     let mut current_column = data.read_string::<Utf8Decoder>(None)?;
